@@ -43,7 +43,6 @@ type syncCase struct {
 	restarts []int
 	idx      int
 	staleHit []bool
-	foreign  []bool // see storeCase.foreign
 	lost     []bool
 	// see storeCase.reAppended
 	discarded  []bool
@@ -229,9 +228,6 @@ func (sc *syncCase) deliver(i int, b []byte, what string) int {
 		sc.find(fmt.Sprintf("rejected delivery changed replica %d state", i))
 	}
 	sc.checkReplica(i)
-	if cls == 0 && sc.diverged[i] {
-		sc.foreign[i] = true
-	}
 	if cls == 0 && sc.discarded[i] {
 		sc.reAppended[i] = true
 	}
@@ -292,7 +288,7 @@ func (sc *syncCase) restart(i int) error {
 	sc.stats["restart"]++
 	sc.restarts[i]++
 	sc.checkReplica(i)
-	if sc.foreign[i] || sc.reAppended[i] {
+	if sc.reAppended[i] {
 		sc.lost[i] = true
 	}
 	sc.discarded[i] = false
@@ -356,7 +352,6 @@ func runSyncCase(r *vk.Run, idx int) error {
 	}
 	sc.restarts = make([]int, sc.nrep)
 	sc.staleHit = make([]bool, sc.nrep)
-	sc.foreign = make([]bool, sc.nrep)
 	sc.discarded = make([]bool, sc.nrep)
 	sc.reAppended = make([]bool, sc.nrep)
 	sc.lost = make([]bool, sc.nrep)
